@@ -88,7 +88,9 @@ pub fn c15_line(s: &mut Src, obs_labels: &mut Vec<&'static str>) -> Vec<u8> {
         }
         1 => {
             // other names
-            let names = ["X-A", "x-a", "X-B", "", " ", "Content-Lengt", "Content-Length2", "Expect2", "\u{212a}", "Con tent-Length", "Host", "A B", "Accept-Encodin", "\u{a0}X-A\u{a0}", "Content\u{2010}Length"];
+            // (unrecognised names, among them standard ones and those the crate itself writes in responses)
+            let names = ["X-A", "x-a", "X-B", "", " ", "Content-Lengt", "Content-Length2", "Expect2", "\u{212a}", "Con tent-Length", "Host", "A B", "Accept-Encodin", "\u{a0}X-A\u{a0}", "Content\u{2010}Length",
+                "Allow", "Connection", "Deprecation", "Date", "Keep-Alive", "Accept-Language", "Accept-Charset", "Content-Encoding", "Content-Range", "Cookie", "Via", "TE", "Upgrade"];
             let n = names[s.below(names.len())];
             let vals = ["v", "", " v ", "a:b", "100-continue", "5", "\u{3000}w\u{3000}", "::"];
             let v = vals[s.below(vals.len())];
@@ -730,6 +732,58 @@ fn token_check(fam: u64, b: &[u8]) -> Result<bool, Fail> {
     }
 }
 
+/// the same exactness where the tokens are used: a media type arriving in an Accept line, a
+/// method or version in the request line of the SECOND request of a connection whose first
+/// request used the canonical token with the same URI
+fn token_check_ctx(fam: u64, b: &[u8]) -> Result<(), Fail> {
+    use crate::props::conn::{run_focus, F_C01};
+    match fam {
+        2 => {
+            let want = match std::str::from_utf8(b) {
+                Ok(t) => match trim_ws(t) {
+                    "text/plain" => Some(Media::Plain),
+                    "application/json" => Some(Media::Json),
+                    _ => None,
+                },
+                Err(_) => None,
+            };
+            for prefill in [Media::Plain, Media::Json] {
+                let mut h = Headers::default();
+                if prefill == Media::Json {
+                    let _ = h.parse_header_line(b"Accept: application/json");
+                }
+                let mut line = b"Accept: ".to_vec();
+                line.extend_from_slice(b);
+                let _ = h.parse_header_line(&line);
+                let got = media_code(h.accept());
+                if got != want.unwrap_or(prefill) {
+                    return Err(Fail::new("C16:media-in-header", format!("after \"Accept: {}\" on a view whose accept was {:?}: accept() = {:?}", esc(b), prefill, got)));
+                }
+            }
+            Ok(())
+        }
+        _ => {
+            let mut stream = b"GET /a HTTP/1.1\r\n\r\n".to_vec();
+            if fam == 0 {
+                stream.extend_from_slice(b);
+                stream.extend_from_slice(b" /a HTTP/1.1\r\n\r\n");
+            } else {
+                stream.extend_from_slice(b"GET /a ");
+                stream.extend_from_slice(b);
+                stream.extend_from_slice(b"\r\n\r\n");
+            }
+            let (reqs, end) = ref_parse(&stream, buf_size(), DEFAULT_LIMIT);
+            for mode in 0..2 {
+                let first = 19usize;
+                let mut sch = |consumed: usize, _t: usize, w: usize| ReadEv::Data { want: if mode == 0 { w.max(1) } else if consumed < first { first - consumed } else { w.max(1) }, fds: vec![] };
+                let r = run_focus("C16", &F_C01, &stream, &reqs, &end, None, false, &mut sch)?;
+                let _ = r;
+            }
+            Ok(())
+        }
+    }
+}
+
 fn c16_tokens_enum(_tier: Tier, shard: u64, nshards: u64, f: &mut dyn FnMut(&[u64]) -> bool) {
     let ks = [17u64, 14, 19];
     let mut c = 0u64;
@@ -765,6 +819,7 @@ fn c16_edits(input: &Input, obs: &mut Obs) -> Result<(), Fail> {
             let mut v = tok.to_vec();
             v.remove(pos);
             token_check(fam, &v)?;
+            token_check_ctx(fam, &v)?;
             n += 1;
         }
         op => {
@@ -776,6 +831,7 @@ fn c16_edits(input: &Input, obs: &mut Obs) -> Result<(), Fail> {
                     v.insert(pos, byte);
                 }
                 token_check(fam, &v)?;
+                token_check_ctx(fam, &v)?;
                 n += 1;
             }
         }
